@@ -7,4 +7,5 @@ Extraction "model_c30.ml"
   Styles.intern Styles.get_style Styles.get_num_fmt Styles.get_default_num_fmt_id
   Styles.get_new_num_fmt_index Styles.NBUILTIN
   StyleLayer.set_cell_style StyleLayer.get_cell_style_index StyleLayer.layer_set_row_style
-  StyleLayer.layer_set_column_style Rows.get_row_style Cols.style_at.
+  StyleLayer.layer_set_column_style Rows.get_row_style Cols.style_at
+  StyleLayer.apply_lop StyleLayer.step_lop StyleLayer.get_cell_style_or_none.
